@@ -946,7 +946,9 @@ func (p *BinaryProtocol) ReadString(copy bool) (value string, err error) {
 	}
 	if copy {
 		value = string(bytes)
-	} else {
+	} else if all > n {
+		// NOTICE: an empty string must not carry a pointer: at the end of the buffer it would point
+		// one past the allocation, which the garbage collector treats as a pointer into the next object
 		v := (*rt.GoString)(unsafe.Pointer(&value))
 		v.Ptr = rt.IndexPtr(*(*unsafe.Pointer)(unsafe.Pointer(&p.Buf)), byteTypeSize, p.Read+n)
 		v.Len = int(all - n)
